@@ -112,6 +112,9 @@ def check(an, rep, tier):
             'rows must be taken with stride idx_many[mode] and the values '
             'folded with width idx_many[mode]', line=fsv.node.lineno,
             file=fsv.module.path)
+    from .. import rules_formula as _F
+    _F.check_rank_formula(an.prog, rep, 'svd.matrix_skeleton')
+    rep.floor('F-rank', 1, 'rank formula of the skeleton helper')
     rep.floor('S-ndim', 1, 'lstsq operand')
     rep.floor('S-ret', 2, 'svd_incomplete results')
     rep.floor('S-producer', 2, 'sample_tt layouts')
